@@ -202,7 +202,9 @@ func rulesC13(p *Prog, r *Report) {
 				return false, false
 			}
 			// IsNegative()/LT(zero) on a value derived from NetFeesCollected.Sub(amount), or amount GT NetFeesCollected
-			involves := func(v ssa.Value) bool { return v != nil && p.originHasField(v, "AppAssetIdToFeeCollectedData", "NetFeesCollected") }
+			involves := func(v ssa.Value) bool {
+				return v != nil && p.originHasField(v, "AppAssetIdToFeeCollectedData", "NetFeesCollected")
+			}
 			if !involves(x) && !involves(y) {
 				return false, false
 			}
